@@ -177,6 +177,7 @@ package graphalg
 //@   loop 1 (b) invariant dfShape(df, idom, g.NumNodes()) && dfSound(g, root, idom, df) && dfDone(g, root, idom, df, b)
 //@   loop 2 (pred) preserves idom[*]
 //@   loop 2 (pred) invariant dfShape(df, idom, g.NumNodes()) && dfSound(g, root, idom, df) && dfDone(g, root, idom, df, b) && (forall kk in 0.._k, x in 0..len(df) :: reach(idom, root, preds[kk]) && between(idom, preds[kk], x, bdom) ==> has(df[x], b))
+//@   loop 3 forget
 //@   loop 3 preserves idom[*]
 //@   loop 3 invariant dfShape(df, idom, g.NumNodes()) && dfSound(g, root, idom, df) && dfDone(g, root, idom, df, b) && (forall kk in 0.._k2, x in 0..len(df) :: reach(idom, root, preds[kk]) && between(idom, preds[kk], x, bdom) ==> has(df[x], b)) && anc(idom, runner, bdom) && (runner == bdom || (0 <= runner && runner < len(idom))) && (forall x in 0..len(df) :: between(idom, runner, x, bdom) ==> between(idom, pred, x, bdom)) && (forall x in 0..len(df) :: between(idom, pred, x, bdom) ==> between(idom, runner, x, bdom) || has(df[x], b))
 //@   loop 4 (rdf) invariant forall j in 0.._k :: df[runner][j] != b
